@@ -44,7 +44,7 @@ def axioms(f):
 
 
 CONTRACT_MODULES = ['contracts.schema', 'contracts.vocab', 'contracts.k1_helpers', 'contracts.k8_validator',
-                    'contracts.k9_utils', 'contracts.k6_header', 'contracts.k2_elementlist', 'contracts.k3_element', 'contracts.k4_structure', 'contracts.k6_groups', 'contracts.k5_encoders', 'contracts.k9_datatypes', 'contracts.k9_factories']
+                    'contracts.k9_utils', 'contracts.k6_header', 'contracts.k2_elementlist', 'contracts.k3_element', 'contracts.k4_structure', 'contracts.k6_groups', 'contracts.k5_encoders', 'contracts.k9_datatypes', 'contracts.k9_factories', 'contracts.k10_mllp']
 
 
 def build_world(modules=None):
